@@ -261,6 +261,31 @@ def n2_reset(ctx, leaves):
                     if writes:
                         n_cl += 1
                         ctx.inst(R)
+                        # the heap word is reachable by Reset when the same shared_ptr is also kept in a member that the
+                        # reset path writes through (`*cell.storage = 0`)
+                        owner = None
+                        ci = cap.get('init')
+                        while isinstance(ci, dict) and ci.get('k') == 'construct' and ci.get('copymove') and ci.get('args'):
+                            ci = unwrap_casts(ci['args'][0])
+                        if isinstance(ci, dict):
+                            p_ = field_path(ci)
+                            if p_:
+                                owner = (p_[0], p_[1])
+                        if owner is None:
+                            for x in walk(f.get('body')):
+                                if x.get('k') in ('assign', 'opcall') and (x.get('op') == '='):
+                                    lhs = x.get('lhs') if x.get('k') == 'assign' else (x.get('args') or [None])[0]
+                                    rhs = x.get('rhs') if x.get('k') == 'assign' else (x.get('args') or [None, None])[1]
+                                    rr = unwrap_casts(rhs)
+                                    while isinstance(rr, dict) and rr.get('k') == 'construct' and rr.get('copymove') and rr.get('args'):
+                                        rr = unwrap_casts(rr['args'][0])
+                                    if isinstance(rr, dict) and rr.get('k') == 'ref' and rr.get('name') == cap.get('name'):
+                                        p_ = field_path(lhs)
+                                        if p_:
+                                            owner = (p_[0], p_[1])
+                        if owner and any(c.replace('[]', '').endswith('.' + owner[1]) for c in cov):
+                            ctx.notes.append('closure-held word of %s is owned by %s::%s, which the reset path clears' % (short_fn(fid), owner[0], owner[1]))
+                            continue
                         ctx.report(R, f, n, 'closure storage ' + cap.get('name', '?'),
                                    'guest-writable state lives in a heap word captured by a stored closure (%s); '
                                    'no Reset path can reach it, so it survives Teakra::Reset()' % short_fn(fid))
